@@ -22,6 +22,9 @@
 #include "lexer.h"
 #include "mode.h"
 #include "token.h"
+#ifdef ROBSD_VERIF
+#include "verif.h"
+#endif
 
 enum token_type {
 	TOKEN_COMMA,
@@ -125,11 +128,17 @@ steps_parse(const char *path, struct arena_scope *eternal_scope)
 		error = 1;
 		goto out;
 	}
+#ifdef ROBSD_VERIF
+	VERIF_POINT("step.after_open");
+#endif
 	if (flock(sf->flock, LOCK_EX) == -1) {
 		warn("flock: %s", path);
 		error = 1;
 		goto out;
 	}
+#ifdef ROBSD_VERIF
+	VERIF_POINT("step.after_lock");
+#endif
 
 	bf = buffer_alloc(512);
 	if (bf == NULL)
@@ -154,6 +163,9 @@ steps_parse(const char *path, struct arena_scope *eternal_scope)
 		error = 1;
 		goto out;
 	}
+#ifdef ROBSD_VERIF
+	VERIF_POINT("step.after_read");
+#endif
 
 	if (steps_parse_header(sf, lx)) {
 		error = 1;
@@ -196,6 +208,9 @@ steps_free(struct step_file *sf)
 		flock(sf->flock, LOCK_UN);
 		close(sf->flock);
 	}
+#ifdef ROBSD_VERIF
+	VERIF_POINT("step.after_unlock");
+#endif
 }
 
 struct step *
@@ -275,12 +290,18 @@ steps_write(struct step_file *sf, struct arena *scratch)
 		}
 	}
 
+#ifdef ROBSD_VERIF
+	VERIF_POINT("step.before_truncate");
+#endif
 	fh = fopen(sf->path, "we");
 	if (fh == NULL) {
 		warn("fopen: %s", sf->path);
 		error = 1;
 		goto out;
 	}
+#ifdef ROBSD_VERIF
+	VERIF_POINT("step.after_truncate");
+#endif
 	n = fwrite(buffer_get_ptr(bf), buffer_get_len(bf), 1, fh);
 	if (n < 1) {
 		warn("fwrite: %s", sf->path);
@@ -293,6 +314,10 @@ out:
 		warn("fclose: %s", sf->path);
 		error = 1;
 	}
+#ifdef ROBSD_VERIF
+	if (fh != NULL)
+		VERIF_POINT("step.after_write");
+#endif
 	buffer_free(bf);
 	return error;
 }
